@@ -116,6 +116,9 @@ type Session struct {
 	Par             *Session
 	ParDelay        time.Duration
 	RandStallOneIn  int // with Par: one read in so many of the shared randomness source stalls
+	// UsePipe: the session runs over the library's in-memory transport (p2p.Pipe) instead of the
+	// simulated socket pair (plain sessions only: no transcripts, no faults)
+	UsePipe bool
 }
 
 // failAfter is a randomness source that delivers left bytes and then returns an error.
@@ -259,6 +262,10 @@ func Run(t *rt.Tape, s Session) *Out {
 			}
 		}
 	}}, t, func() {
+		var pipeG, pipeE *p2p.Conn
+		if s.UsePipe {
+			pipeG, pipeE = p2p.Pipe()
+		}
 		rt.GoParty("G", "garbler", func() {
 			if s.Prelude != nil {
 				connP := p2p.NewConn(eaP)
@@ -278,6 +285,9 @@ func Run(t *rt.Tape, s Session) *Out {
 				}
 			}
 			conn := p2p.NewConn(ea)
+			if s.UsePipe {
+				conn = pipeG
+			}
 			o.GOut, o.GErr = circuit.Garbler(cfg, conn, spy, s.Circ, s.X, s.VerboseG)
 			o.GDone = true
 			o.OTWires, spy.Wires = spy.Wires, nil
@@ -286,6 +296,9 @@ func Run(t *rt.Tape, s Session) *Out {
 			}
 			if o.GErr != nil {
 				abort(ea, ea2)
+				if s.UsePipe {
+					conn.Close()
+				}
 				return
 			}
 			if s.Next == nil {
@@ -349,6 +362,9 @@ func Run(t *rt.Tape, s Session) *Out {
 				}
 			}
 			conn := p2p.NewConn(eb)
+			if s.UsePipe {
+				conn = pipeE
+			}
 			o.EOut, o.EErr = circuit.Evaluator(conn, otE, s.Circ, s.Y, s.VerboseE)
 			o.EDone = true
 			if s.Next != nil || s.Par != nil {
@@ -356,6 +372,9 @@ func Run(t *rt.Tape, s Session) *Out {
 			}
 			if o.EErr != nil {
 				abort(eb, eb2)
+				if s.UsePipe {
+					conn.Close()
+				}
 				return
 			}
 			if s.Next == nil {
@@ -552,7 +571,13 @@ func (w *C02) Run(t *rt.Tape, trace bool) *core.Result {
 		second += fmt.Sprintf("preceded by a session (%s) that fails: connection reset at byte %d of direction %d, or (if > 0) garbler randomness failing after %d bytes", gen.Describe(pc), sess.PreludeCut, sess.PreludeDir, sess.PreludeRandFail)
 		res.Reach["fail-then-carry-on"]++
 	}
-	res.Sample = Sample{Circuit: gen.Describe(circ), X: in[0].Text(16), Y: in[1].Text(16), OT: OTNames[kind], GE: core.DescribeDir(pipe.AB), EG: core.DescribeDir(pipe.BA), Second: second}
+	geDesc, egDesc := core.DescribeDir(pipe.AB), core.DescribeDir(pipe.BA)
+	if sess.Next == nil && sess.Par == nil && sess.Prelude == nil && t.Choose(rt.SGen, 8) == 0 {
+		sess.UsePipe = true
+		geDesc, egDesc = "p2p.Pipe", "p2p.Pipe"
+		res.Reach["transport.p2p.Pipe"]++
+	}
+	res.Sample = Sample{Circuit: gen.Describe(circ), X: in[0].Text(16), Y: in[1].Text(16), OT: OTNames[kind], GE: geDesc, EG: egDesc, Second: second}
 	res.Class = "ot=" + OTNames[kind]
 	want := gen.Eval(circ, in)
 
